@@ -343,6 +343,17 @@ func c09ExceptionPremise(c *Ctx) {
 	}
 	seen := map[*ssa.Function]bool{}
 	var origins []string
+	renderer := map[string]bool{"internal/kessoku.createASTTypeExpr": true}
+	// the type renderer by what it is: takes go/types values, returns (ast.Expr, error) - also as a method of a carrier
+	for _, f := range pkgFuncs(L, genPkg) {
+		if f.Parent() != nil {
+			continue
+		}
+		sg := f.Signature.String()
+		if strings.HasSuffix(sg, "(go/ast.Expr, error)") && strings.Contains(sg, "go/types.") {
+			renderer[fnName(f)] = true
+		}
+	}
 	var walk func(fn *ssa.Function)
 	walk = func(fn *ssa.Function) {
 		if seen[fn] || fn.Blocks == nil {
@@ -372,7 +383,7 @@ func c09ExceptionPremise(c *Ctx) {
 	walk(root)
 	bad := []string{}
 	for _, o := range origins {
-		if o != "internal/kessoku.createASTTypeExpr" {
+		if !renderer[o] {
 			bad = append(bad, o)
 		}
 	}
